@@ -422,12 +422,35 @@ func run(bin, prop, tier string, seed int64, replay string, nshards int, race bo
 	knownStatus := map[string]string{}
 	// committed reproducers: known ones must still fail (else they are silently
 	// obsolete), fixed ones must pass (else the defect is back).
+	type repRes struct {
+		failed   bool
+		key, msg string
+	}
+	repResults := make([]repRes, len(known))
+	{
+		var rwg sync.WaitGroup
+		sem := make(chan struct{}, 8)
+		for i, k := range known {
+			if k.Replay == "" {
+				continue
+			}
+			rwg.Add(1)
+			go func(i int, k knownFinding) {
+				defer rwg.Done()
+				sem <- struct{}{}
+				defer func() { <-sem }()
+				failed, key, msg, _ := replayOnce(bin, prop, filepath.Join(verifDir, k.Replay), filepath.Join(workDir, fmt.Sprintf("known%d", i)), race)
+				repResults[i] = repRes{failed, key, msg}
+			}(i, k)
+		}
+		rwg.Wait()
+	}
 	for i, k := range known {
 		if k.Replay == "" {
 			continue
 		}
 		rp := filepath.Join(verifDir, k.Replay)
-		failed, key, msg, _ := replayOnce(bin, prop, rp, filepath.Join(workDir, fmt.Sprintf("known%d", i)), race)
+		failed, key, msg := repResults[i].failed, repResults[i].key, repResults[i].msg
 		switch k.Status {
 		case "known":
 			if failed && key == k.Key {
